@@ -4,6 +4,7 @@ import MakoModel.Conc.LemmasOnce
 import MakoModel.Conc.LemmasUri
 import MakoModel.Conc.LemmasHold
 import MakoModel.Conc.Witness
+import MakoModel.Generated.Conc
 /-!
 # C16 – concurrent lookups and renders behave like some sequential execution
 
@@ -229,17 +230,30 @@ example : Init lruSys ∧ Reachable lruSys (run lruSched lruSys) ∧ lruSys.cfg.
     (∀ t, t < 2 → ((run lruSched lruSys).threads t).pc.inLru = false) :=
   ⟨init_mkSys _ _ _ _ (fileFS_mtime _ _ (by decide)), ⟨_, rfl⟩, rfl, by decide, by decide, by decide⟩
 
+/-- The obligation behind "each memo cell is written only with a value equal to what any other writer would
+    write", per cell, on the code as it is now (regenerated from /repo on every run): for every lazily initialised
+    shared cell – `obj.__dict__[name]` of `memoized_property` (`Template.cache`, `Template.reserved_names`),
+    `Cache._def_regions[defname]`, `lexer._regexp_cache[…]`, `TemplateLookup._uri_cache[key]`,
+    `ModuleInfo._modules[…]` – the statement that stores the object into the shared container is not followed by
+    statements that still mutate it: the value is complete at the moment it becomes visible to other threads, which is
+    what the model's one-step write of `memoVal` assumes. -/
+theorem memo_cells_stored_complete :
+    Generated.Conc.memoCells.length = 5 ∧ Generated.Conc.memoCells.all (fun c => c.2) = true := by decide
+
 /-- Renders are independent: (1) a step of thread `a` leaves the record of every other thread (program counter,
     per-render context and buffers, results) untouched; (2) every shared memo cell is unset or holds the one value
-    any writer writes (idempotent initialisation); (3) hence every render result, whatever the other threads did
-    meanwhile, is the output of that render run alone (`renderSpec`). -/
+    any writer writes (idempotent initialisation), and (3) a step changes a cell, if at all, to that complete value in
+    the one step (no half-initialised value is ever visible – `memo_cells_stored_complete` is the tie of this to the
+    source); (4) hence every render result, whatever the other threads did meanwhile, is the output of that render
+    run alone (`renderSpec`). -/
 theorem renders_independent {s0 s : Sys} (h0 : Init s0) (hr : Reachable s0 s) :
     (∀ a b s', step s a = some s' → b ≠ a → s'.threads b = s.threads b) ∧
     (∀ i k v, s.sh.memo i k = some v → v = memoVal i k) ∧
+    (∀ a s' i k, step s a = some s' → s'.sh.memo i k = s.sh.memo i k ∨ s'.sh.memo i k = some (memoVal i k)) ∧
     (∀ tid i v c ks us, Res.rendered i v c ks us ∈ (s.threads tid).results →
       Res.rendered i v c ks us = renderSpec ⟨i, 0, 0, v, 0⟩ c ks) := by
   have hi := renderInv_reachable h0 hr
-  refine ⟨fun a b s' h hb => step_threads_other h hb, hi.memo, ?_⟩
+  refine ⟨fun a b s' h hb => step_threads_other h hb, hi.memo, fun a s' i k h => step_memo_complete h i k, ?_⟩
   intro tid i v c ks us h
   have := hi.res tid _ h i v c ks us rfl
   simp [renderSpec, this]
